@@ -335,7 +335,22 @@ def register(I, R, hooks):
                     if any(isinstance(x, Seg) for x in items):
                         raise Unsupported("padded symbolic segment")
                     if n < width:
-                        raise Unsupported("padding in format")
+                        # core::fmt::Formatter::pad / pad_integral on concrete text
+                        if not all(isinstance(x, int) for x in items):
+                            raise Unsupported("padding of symbolic text")
+                        val = deref_all(I, arg.v, st)
+                        numeric = isinstance(val, int) and not isinstance(val, bool) and arg.kind == "display"
+                        fill = flags & 0x1FFFFF
+                        align = (flags >> 29) & 3
+                        pad = width - n
+                        if numeric and flags & ZERO:
+                            sign = [items[0]] if items and items[0] in (43, 45) else []
+                            items = tuple(sign) + (48,) * pad + tuple(items[len(sign):])
+                        else:
+                            if align == 3:
+                                align = 1 if numeric else 0
+                            left = 0 if align == 0 else pad if align == 1 else pad // 2
+                            items = (fill,) * left + tuple(items) + (fill,) * (pad - left)
                 out.extend(items)
         return StringV(out)
     I.render_args = render
